@@ -17,6 +17,7 @@
 //! * `VAPI_DEBUG=1`, `VAPI_DEBUG_TAPES=1`, `VAPI_TRACE_MSGS=1`, `VAPI_STEP_BOUND=n`  development aids.
 #![allow(dead_code)]
 #![allow(clippy::type_complexity)]
+mod c05;
 mod c06;
 mod c15;
 mod c19;
@@ -27,5 +28,5 @@ mod prog;
 mod util;
 
 fn main() {
-    vcommon::main(&[&c06::DEF, &c15::DEF, &c19::DEF])
+    vcommon::main(&[&c05::DEF, &c06::DEF, &c15::DEF, &c19::DEF])
 }
